@@ -494,8 +494,10 @@ fn parse_mh2o_chunk<R: Read + Seek>(
                     Ok(_) => {
                         // Convert to u64 by padding with zeros
                         let mut padded = [0u8; 8];
-                        for (i, &byte) in bitmap_bytes.iter().enumerate() {
-                            padded[i] = byte;
+                        // width and height are u8 fields: a malformed instance may announce more
+                        // than the 8x8 tiles a 64-bit mask can hold; extra bytes are ignored
+                        for (dst, &byte) in padded.iter_mut().zip(bitmap_bytes.iter()) {
+                            *dst = byte;
                         }
                         let bitmap = u64::from_le_bytes(padded);
                         Some(bitmap)
